@@ -372,6 +372,8 @@ def builtin(I, name, a, kwargs, node):
         out = DictS()
         for item in seq_elts(I, v, node):
             if isinstance(item, (TupS, ListLit)) and len(item.elts) == 2 and isinstance(item.elts[0], Const):
+                if item.elts[0].v in out.items:
+                    I.note("key-collision", short(node, 60) if node is not None else "", f"two entries share the key {item.elts[0].v!r}")
                 out.items[item.elts[0].v] = item.elts[1]
             else:
                 return Top("dict() of non-pairs")
@@ -495,7 +497,12 @@ def call_method(I, recv, name, args, kwargs, node):
         if name in ("get", "pop"):
             k = args[0]
             default = args[1] if len(args) > 1 else Const(None)
+            t = getattr(recv, "table", None)
+            if t is not None:
+                t["probed"] = True
             if isinstance(k, Const):
+                if k.v in recv.items and t is not None:
+                    t["hits"].add(k.v)
                 if k.v in recv.items:
                     v = recv.items[k.v]
                     opt = k.v in recv.optional
@@ -507,6 +514,8 @@ def call_method(I, recv, name, args, kwargs, node):
                     raise _Raise(f"KeyError {k.v!r}")
                 return default
             if isinstance(k, (Leaf, Top)):
+                if t is not None:
+                    t["hits"].update(recv.items)
                 return Choice(list(recv.items.values()) + [default])
             if isinstance(k, Choice):
                 return Choice([call_method(I, recv, name, [x] + list(args[1:]), kwargs, node) for x in k.alts])
